@@ -72,7 +72,11 @@ class Findings:
             if e["property"] != v.property:
                 continue
             sig = e["signature"]
-            if sig.get("oracle") != v.oracle:
+            so = sig.get("oracle")
+            if isinstance(so, list):
+                if v.oracle not in so:
+                    continue
+            elif so != v.oracle:
                 continue
             ops = sig.get("op")
             if ops is None:
